@@ -122,7 +122,15 @@ impl Hist {
         ctx.emit.corr(&self.tag, op, real);
     }
     pub fn new_request(&mut self, ctx: &mut Ctx, elems: &[&str]) -> Vec<u8> {
-        let msg = self.sim.rdr.new_request(sess::simple_namespaces(elems)).unwrap();
+        let msg = match self.sim.rdr.new_request(sess::simple_namespaces(elems)) {
+            Ok(m) => m,
+            Err(_) => {
+                // send counter used up: no request, nothing changes (Model: `Reader.newRequest` = (r, none))
+                let real = format!("none iv=none {}", self.sim.summary());
+                self.emit(ctx, "sess.newRequest".into(), real);
+                return vec![];
+            }
+        };
         let p = sess::peek_reader(&self.sim.rdr);
         let mut ex = self.extra.clone(); ex.push(p.rdr_ctr);
         let d = self.sim.describe(&msg, &ex);
